@@ -989,6 +989,7 @@ _ALG = "src/fandango/evolution/algorithm.py"
 _POP = "src/fandango/evolution/population.py"
 _API = "src/fandango/api.py"
 MUTANTS = [
+    M("match-classification-ignores-unknown-kinds", "src/fandango/evolution/evaluation.py", '            if isinstance(constraint, SoftValue):\n                self._soft_constraints.append(constraint)\n            elif isinstance(constraint, RepetitionBoundsConstraint):\n                self._repetition_bounds_constraints.append(constraint)\n            elif isinstance(constraint, Constraint):\n                self._hard_constraints.append(constraint)\n            else:\n                raise ValueError(f"Invalid constraint type: {type(constraint)}")\n', '            match constraint:\n                case SoftValue():\n                    self._soft_constraints.append(constraint)\n                case RepetitionBoundsConstraint():\n                    self._repetition_bounds_constraints.append(constraint)\n                case Constraint():\n                    self._hard_constraints.append(constraint)\n                case _:\n                    pass\n', "R02-a"),
     M("globals-override-bound-variables", "src/fandango/constraints/constraint.py", "        return eval(expression, {**global_variables, **local_variables})\n", "        return eval(expression, dict(local_variables) | global_variables)\n", "R02-l"),
     M("command-line-constraints-only-with-f", "src/fandango/cli/commands.py", "        grammar, constraints = _default_content_with_constraints(args)\n", "        grammar, constraints = DEFAULT_FAN_CONTENT\n", "R02-k", count=3),
     M("item-selector-skips-missing-index", "src/fandango/language/search.py", "        return list(\n            map(\n                Tree,\n                [\n                    t.__getitem__(self.slices)\n                    for base in bases\n                    for t in base.get_trees()\n                ],\n            )\n        )\n",
@@ -1027,6 +1028,7 @@ MUTANTS = [
     M("unevaluated-combination-scores-one", _CMP, "            has_combinations = True\n", "            has_combinations = True\n            if not combination:\n                fitness_values.append(1.0)\n                continue\n", "R02-g"),
 ]
 TWINS = [
+    M("twin-classification-by-match-statement", "src/fandango/evolution/evaluation.py", '            if isinstance(constraint, SoftValue):\n                self._soft_constraints.append(constraint)\n            elif isinstance(constraint, RepetitionBoundsConstraint):\n                self._repetition_bounds_constraints.append(constraint)\n            elif isinstance(constraint, Constraint):\n                self._hard_constraints.append(constraint)\n            else:\n                raise ValueError(f"Invalid constraint type: {type(constraint)}")\n', '            match constraint:\n                case SoftValue():\n                    self._soft_constraints.append(constraint)\n                case RepetitionBoundsConstraint():\n                    self._repetition_bounds_constraints.append(constraint)\n                case Constraint():\n                    self._hard_constraints.append(constraint)\n                case _:\n                    raise ValueError(f"Invalid constraint type: {type(constraint)}")\n', None),
     M("twin-distance-live-but-clamped", _CMP, "    if dist is float | int:\n        dist = 2 * (_sigmoid(abs(dist)) - 0.5)\n        return dist\n",
       "    if isinstance(dist, (int, float)):\n        dist = 2 * (_sigmoid(abs(dist)) - 0.5)\n        return max(dist, 1e-9)\n", None),
     M("twin-extract-acceptance-predicate", _EV, "        if fitness >= self._expected_fitness and key not in self._solution_set:\n            self._solution_set.add(key)\n            yield individual\n",
